@@ -172,7 +172,11 @@ class Cache:
         else:
             tmpl_kw = self.template.cache_args.copy()
             tmpl_kw.update(kw)
-            self._def_regions[defname] = tmpl_kw
+            if context is not None:
+                # the section's own arguments, as its render passes them:
+                # remembered for the invalidate_*() methods, which do
+                # not have them
+                self._def_regions[defname] = tmpl_kw
         if context and self.impl.pass_context:
             tmpl_kw = tmpl_kw.copy()
             tmpl_kw.setdefault("context", context)
